@@ -65,10 +65,15 @@ CLAIMS = {
             "sees the history, and no successor's key equals the root's key, then every reported iteration of depth >= 2 carries -DRAW_SCORE (one constant) and the answer is a legal move. "
             "That the histories built by the UCI layer make the successors rule-drawn, and the tie to the binary, rest on running real searches on generated all-drawn roots.",
             "DESIGN.md section 6 C11 and section 9", "modulo fuel; no_clash excludes 64-bit key collisions between the root and its successors"),
-    "C12": ("proof", "Coq lemmas: a node without legal moves in check returns -MATE+ply; no null move in check + real searches on mate-in-one roots with fresh and pre-filled tables",
-            "PARTIAL proof. Proved on the model: value of a mated / stalemated node for any window, depth and table. The root-level statement for arbitrary "
-            "tables is decided by running real searches (depth 1..4, fresh and pre-filled tables) on generated mate-in-one roots.",
-            "DESIGN.md section 6 C12", "modulo fuel"),
+    "C12": ("proof", "Coq proof: a search value strictly inside its window is honest for any bounded table (zero-window cut-offs are re-searched), hence a root with a mating move reports MATE-1 at every iteration and answers with a mating move + real searches on mate-in-one roots with fresh and pre-filled tables",
+            "Proof on the model: for every table whose scores are within the mate bounds, every history and depth limit >= 1 (and the unlimited search): if a generated "
+            "move of the root mates, the clock is below 99, the mated position is no repetition and the table never answers for the mated position's key (no entry "
+            "under that key, and no position of the search tree with a legal move has that key: mated nodes are never stored, so only a 64-bit key collision could "
+            "create one), the search answers with a mating move and every reported score is MATE_SCORE - 1 (C12_mate_in_one_is_played). Core lemma: a value strictly "
+            "inside the window lies between -MATE+ply and MATE-ply-1 and equals -MATE+ply only at a mated node, whatever the table holds. The key premise is needed: "
+            "witness run with one bounded entry under the mated key (C12_misleading_entry_under_the_mated_key) -- 'whatever the table contains' holds of the tables "
+            "the engine can produce, not of a foreign table. Real searches (depth 1..4, fresh and pre-filled tables) on generated mate-in-one roots tie model and code.",
+            "DESIGN.md section 6 C12 and section 9 (eighth proof round)", "key premise (no 64-bit collision with the mated position inside the search tree) is a hypothesis"),
     "C04": ("proof", "Coq proofs: recomputed key = function of the abstract 8x8 state (XOR-sum over squares, linear in the boards); predicted key = recomputed key after the move for every move kind incl. castling, makemove stores the prediction, null move; minimum distance of the key code (vm_compute sweep over regenerated tables) + differential on incremental/recomputed keys",
             "Proved on the model: (a) calculate_hash p = spec_key (abs_state p): the key is a function of placement, side to move, castling "
             "rights held and en-passant file only -- not of counters, stored perspective or path; (b) predict_hash p m = calculate_hash "
